@@ -198,7 +198,7 @@ def _tree_edges(b, levels):
            anchors=["polyply.src.gen_seq:gen_seq", "polyply.src.gen_seq:generate_seq_graph", "polyply.src.gen_seq:_add_edges",
                     "polyply.src.gen_seq:_apply_termini_modifications", "polyply.src.gen_seq:_tag_nodes",
                     "polyply.src.gen_seq:_branched_graph", "polyply.src.simple_seq_parsers:parse_json"],
-           rejects=(), selector_only=True, must_cover=["read back", "connect", "termini", "tag", "connect record with two pairs"],
+           rejects=(), selector_only=True, must_cover=["read back", "connect", "termini", "tag", "connect record with two pairs", "connect record naming the later block first"],
            outside=["residue mixes with probabilities below 1 (statistical)", "macros from files", "more than 3 macros in a sequence"],
            bounds={"quick": dict(levels=(1, 2), bf=(1, 2), seqlen=2), "thorough": dict(levels=(1, 3), bf=(1, 2), seqlen=2)},
            budget={"quick": 200, "thorough": 1500})
@@ -239,6 +239,11 @@ def genseq(sx, B):
                 rec += ",%d-%d" % (a2, c2)
                 edges.add(frozenset((offs[i][0] + a2, offs[i + 1][0] + c2)))
                 sx.cover("connect record with two pairs")
+            if sx.sel("later_block_first%d" % i, [False, True]):
+                # a record may name the later block first; its residue pairs are then given in that order too
+                pairs = [q.split("-") for q in rec.split(":")[2].split(",")]
+                rec = "%d:%d:%s" % (i + 1, i, ",".join("%s-%s" % (q[1], q[0]) for q in pairs))
+                sx.cover("connect record naming the later block first")
             connects.append(rec)
             sx.cover("connect")
     mods = []
